@@ -263,7 +263,7 @@ theorem not_failed_plain {c : Call} {r : Res} (hc : plainCall c = true) (h : r.i
   | err e => cases h
   | _ => cases c <;> first | rfl | cases hc
 
-theorem render_eq (hs : List Hdr) (body : Bytes) : render hs body = hs.flatMap hdrLine ++ ([10] ++ body) := by
+private theorem render_eq (hs : List Hdr) (body : Bytes) : render hs body = hs.flatMap hdrLine ++ ([10] ++ body) := by
   unfold render
   rw [List.append_assoc]
   rfl
